@@ -17,13 +17,13 @@ static void one(const int *comp, int n, int pat)
     for (int k = 0; k < n; k++) {
         int c = comp[k], w = WIDTH[c]; snprintf(cs + strlen(cs), sizeof cs - strlen(cs), "%c", c <= 4 ? '0' + c : (c == 5 ? 'a' : c == 6 ? 'b' : 'd'));
         if (c >= 5) { NC.rpdo[0].map[k] = NC_MAP(DUMMY_IDX[c - 5][nd++ & 1], 0, w * 8); }
-        else if (w == 1) NC.rpdo[0].map[k] = NC_MAP(0x2113, 1 + i8++, 8);
+        else if (w == 1) { NC.rpdo[0].map[k] = i8 == 0 ? NC_MAP(0xF100, 0, 8) : NC_MAP(0x2113, i8, 8); i8++; }      /* the first 8-bit object lives at F100h, the others at 2113h:1..7 */
         else if (w == 2) NC.rpdo[0].map[k] = NC_MAP(0x2114, 1 + i16++, 16);
         else { NC.rpdo[0].map[k] = i32 == 0 ? NC_MAP(0x2102, 0, w * 8) : NC_MAP(0x2112, 0, w * 8); i32++; }
     }
     NC.operational = 1;
     nc_build();
-    for (int i = 0; i < 8; i++) want8[i] = B8[i];
+    want8[0] = H8; for (int i = 1; i < 8; i++) want8[i] = B8[i - 1];
     for (int i = 0; i < 4; i++) want16[i] = W16[i];
     want32[0] = A32; want32[1] = P32;
     i8 = i16 = i32 = 0;
@@ -35,13 +35,14 @@ static void one(const int *comp, int n, int pat)
     }
     w_obs_clear();
     w_rx(&Node, 0x201, 8, PAY[pat]); mc_steps++;
-    for (int i = 0; i < 8; i++) if (B8[i] != want8[i]) { mc_fail("rpdo-map-data", "mapping %s payload %d: 8-bit object #%d is %02X, expected %02X", cs, pat, i, B8[i], want8[i]); break; }
+    for (int i = 0; i < 8; i++) { uint8_t have = i ? B8[i - 1] : H8; if (have != want8[i]) { mc_fail("rpdo-map-data", "mapping %s payload %d: 8-bit object #%d (%s) is %02X, expected %02X", cs, pat, i, i ? "2113h" : "F100h", have, want8[i]); break; } }
+    if (B8[7] != 0xC7) mc_fail("rpdo-foreign-object", "mapping %s: an object that is not mapped changed", cs);
     for (int i = 0; i < 4; i++) if (W16[i] != want16[i]) { mc_fail("rpdo-map-data", "mapping %s payload %d: 16-bit object #%d is %04X, expected %04X", cs, pat, i, W16[i], want16[i]); break; }
     if (A32 != want32[0] || P32 != want32[1]) mc_fail("rpdo-map-data", "mapping %s payload %d: 32-bit objects are %08X %08X, expected %08X %08X", cs, pat, A32, P32, want32[0], want32[1]);
     if (A8 != 0x11 || P8 != 0x22 || A16 != 0x3344 || P16 != 0x5566 || N32 != 0x01020304 || W32 != 0x0E0F1011) mc_fail("rpdo-foreign-object", "mapping %s: an object that is not mapped changed", cs);
     if (OBS.ntx) mc_fail("rpdo-transmission", "mapping %s: %d frame(s) sent", cs, OBS.ntx);
     snprintf(smp, sizeof smp, "mapping %s (1-4 object widths, a/b/d dummies of 1/2/4 bytes) payload %d", cs, pat);
-    mc_case_end(((uint64_t)B8[0] << 40) ^ ((uint64_t)W16[0] << 16) ^ A32 ^ ((uint64_t)n << 60) ^ ((uint64_t)pos << 52), 1, smp);
+    mc_case_end(((uint64_t)H8 << 40) ^ ((uint64_t)W16[0] << 16) ^ A32 ^ ((uint64_t)n << 60) ^ ((uint64_t)pos << 52), 1, smp);
 }
 
 static void rec(int *comp, int n, int sum)
